@@ -483,6 +483,7 @@ theorem applyStep_lc (hns : ∀ t, t.1 = ns → F t) (e : Step) (n : Nat) (x : H
     split
     · exact LC.pure _ (by intro y h; simp at h)
     · exact LC.pure _ (stepIn_some hx)
+  case emit => exact LC.pure _ (stepIn_some hx)
 
 /-- the value that reaches the end of a fill sequence -/
 def ChainIn (F : Tok → Prop) (r : List Nat × Option HItem) : Prop := ∀ y, r.2 = some y → ItemIn F y
@@ -583,7 +584,14 @@ theorem hActM_lc (hns : ∀ t, t.1 = ns → F t) (sp : BSpec) (s : HSt) (hs : Re
   case run buf =>
     refine LC.bind (runSteps_lc hns _ buf s.cs (fun t ht => hr t (by simpa [Req.cells] using ht))) (fun q hq => ?_)
     split
-    · exact LC.pure _ ⟨hs, hq⟩
+    · split
+      · exact LC.pure _ ⟨hs, hq⟩
+      · refine LC.bind (LC.alloc hns _) (fun c hc => LC.pure _ ⟨hs, ?_⟩)
+        intro t ht
+        rw [cellsOf_append] at ht
+        rcases List.mem_append.mp ht with ht | ht
+        · exact hq t ht
+        · exact mkItem_in (some_inj_F hc) t (by simpa [cellsOf] using ht)
     · exact LC.bind (countAtEnd_lc hns _ _ _ hq) (fun ys hys => LC.pure _ ⟨hs, hys⟩)
 
 
